@@ -136,7 +136,12 @@ ModesBad(e) ==
                          /\ (f = Len(R) \/ Lt(e.qs[j], e.keys[R[f + 1]]))}
       built == \A m \in 1..16 : e.ans[m].err = "" /\ e.ans[m].pan = ""
   IN [witness |-> witnessbad,
-      build   |-> IF built THEN {} ELSE {1},
+      \* a build may refuse keys beyond the documented limits (C08); anything else is a
+      \* construction failure
+      build   |-> IF \E m \in 1..16 : \/ e.ans[m].pan # ""
+                                      \/ e.ans[m].err \notin {"", "toolong"}
+                                      \/ (e.ans[m].err = "toolong" /\ \A i \in 1..n : Len(e.keys[i]) <= 16384)
+                  THEN {1} ELSE {},
       \* found with more information => found with the same value with less
       refine  |-> IF ~built THEN {} ELSE
                   {j \in 1..nq : \E p \in InfoPairs :
